@@ -319,6 +319,9 @@ def settle (cfg : Conf) (s : St) : St := run cfg s (settleEvs s)
 /-- one op of the harness: an event, then the spontaneous steps -/
 def tieStep (cfg : Conf) (s : St) (e : Ev) : St := settle cfg (step cfg s e)
 
+/-- a whole schedule of the harness -/
+def tieRun (cfg : Conf) (s : St) (evs : List Ev) : St := evs.foldl (tieStep cfg) s
+
 /-- what the driver keeps between ops: `noGame` = `tak.New` panicked before `Bot.NewGame` was called -/
 structure Session where
   cfg : Conf
